@@ -55,6 +55,7 @@ type ReplayOut struct {
 	AssumeViolated bool      `json:"assume_violated"`
 	Panic          string    `json:"panic"`
 	Deadlock       bool      `json:"deadlock"`
+	Diverged       bool      `json:"diverged"`
 	Race           bool      `json:"race"`
 }
 
@@ -281,6 +282,13 @@ func NativeOverlay(harnessDir string, sched bool, tmp string) (map[string]string
 	if err != nil {
 		return nil, err
 	}
+	n := 0
+	put := func(virtual string, content []byte) {
+		n++
+		p := filepath.Join(tmp, fmt.Sprintf("rw%d_%s", n, filepath.Base(virtual)))
+		os.WriteFile(p, content, 0o644)
+		ov[virtual] = p
+	}
 	for v, r := range real {
 		base := filepath.Base(r)
 		// sym_*.go are symbolic-side-only definitions
@@ -288,19 +296,30 @@ func NativeOverlay(harnessDir string, sched bool, tmp string) (map[string]string
 			continue
 		}
 		ov[v] = r
+		if sched && base != "rt.go" && base != "sched.go" {
+			// harness code sees the same shimmed types as the repository code
+			src, err := os.ReadFile(r)
+			if err != nil {
+				return nil, err
+			}
+			repl := schedReplXsync
+			if strings.Contains(r, "/cache/") {
+				repl = schedReplCache
+			}
+			out, ch, err := rewriteSelectors(r, src, repl, nil)
+			if err != nil {
+				return nil, fmt.Errorf("rewrite %s: %v", r, err)
+			}
+			if ch {
+				put(v, out)
+			}
+		}
 	}
 	for _, sub := range []struct{ dir, dest string }{{"native_xsync", filepath.Join(RepoDir, "internal/xsync")}, {"native_cache", RepoDir}} {
 		files, _ := filepath.Glob(filepath.Join(harnessDir, sub.dir, "*.go"))
 		for _, f := range files {
 			ov[filepath.Join(sub.dest, "zz_vxn_"+filepath.Base(f))] = f
 		}
-	}
-	n := 0
-	put := func(virtual string, content []byte) {
-		n++
-		p := filepath.Join(tmp, fmt.Sprintf("rw%d_%s", n, filepath.Base(virtual)))
-		os.WriteFile(p, content, 0o644)
-		ov[virtual] = p
 	}
 	// package cache: clock (+ atomic.Value shim)
 	files, _ := filepath.Glob(filepath.Join(RepoDir, "*.go"))
